@@ -10,6 +10,7 @@ import IkeModel.Generated.Gen_dh
 import IkeModel.GenAbsSa
 import DriverOps
 import DriverKeys
+import DriverReg
 
 /-! Driver for the GENERATED model (`IkeModel/Generated/Gen_message.lean`, written by
 `tools/go2lean` from /repo's current source): the same line protocol as `Driver.lean`, the same
@@ -443,6 +444,52 @@ def gSaOpsOp (ts : Array String) : String :=
     | none => "bad-args"
   | _, _ => "bad-args"
 
+/-! ### the container builders of `message/build.go` as translated (`build <prior container> <op> <args…>`) -/
+
+def gOkPayloads (c : List IKEPayload) : String :=
+  optStr (fun ps => "ok " ++ (sxPayloads ps).toStr) (GenAbs.absPayloads c)
+
+/-- an error return of the Go code leaves the container as it was (an error carries no state in the translation) -/
+def gResPayloads (before : List Payload) : Res (List IKEPayload) → String
+  | .ok c => gOkPayloads c
+  | .err => "err " ++ (sxPayloads before).toStr
+  | .fault => "panic"
+
+open DriverReg in
+def gBuildOp (ts : Array String) : Option String := do
+  let (prior, o) ← Sx.parseTokens ts 1
+  let op ← ts[o]?
+  let a := o + 1
+  if op == "transform" || op == "cpattr" || op == "tsel" || op == "proposal" then pure "unsupported" else
+  let ps ← rdPayloads prior
+  let c := ps.map GenAbs.repPayload
+  let fin (r : Res (List IKEPayload)) : String := gResPayloads ps r
+  match op with
+  | "notification" => pure (fin (IKEPayloadContainer.BuildNotification c (← u8At ts a) (← u16At ts (a+1)) (← bytesAt ts (a+2)) (← bytesAt ts (a+3))))
+  | "certificate" => pure (fin (IKEPayloadContainer.BuildCertificate c (← u8At ts a) (← bytesAt ts (a+1))))
+  | "encrypted" => pure (fin ((IKEPayloadContainer.BuildEncrypted c (← u8At ts a) (← bytesAt ts (a+1))).map (·.1)))
+  | "ke" => pure (fin (IKEPayloadContainer.BUildKeyExchange c (← u16At ts a) (← bytesAt ts (a+1))))
+  | "idi" => pure (fin (IKEPayloadContainer.BuildIdentificationInitiator c (← u8At ts a) (← bytesAt ts (a+1))))
+  | "idr" => pure (fin (IKEPayloadContainer.BuildIdentificationResponder c (← u8At ts a) (← bytesAt ts (a+1))))
+  | "auth" => pure (fin (IKEPayloadContainer.BuildAuthentication c (← u8At ts a) (← bytesAt ts (a+1))))
+  | "configuration" => pure (fin ((IKEPayloadContainer.BuildConfiguration c (← u8At ts a)).map (·.1)))
+  | "nonce" => pure (fin (IKEPayloadContainer.BuildNonce c (← bytesAt ts a)))
+  | "tsi" => pure (fin ((IKEPayloadContainer.BuildTrafficSelectorInitiator c).map (·.1)))
+  | "tsr" => pure (fin ((IKEPayloadContainer.BuildTrafficSelectorResponder c).map (·.1)))
+  | "sa" => pure (fin ((IKEPayloadContainer.BuildSecurityAssociation c).map (·.1)))
+  | "delete" =>
+    let (sp, _) ← Sx.parseTokens ts (a+3)
+    pure (fin (IKEPayloadContainer.BuildDeletePayload c (← u8At ts a) (← u8At ts (a+1)) (← u16At ts (a+2)) (← rdU32s sp)))
+  | "eap" => pure (fin ((IKEPayloadContainer.BuildEAP c (← u8At ts a) (← u8At ts (a+1))).map (·.1)))
+  | "eapsuccess" => pure (fin (IKEPayloadContainer.BuildEAPSuccess c (← u8At ts a)))
+  | "eapfailure" => pure (fin (IKEPayloadContainer.BuildEAPfailure c (← u8At ts a)))
+  | "eap5gstart" => pure (fin (IKEPayloadContainer.BuildEAP5GStart c (← u8At ts a)))
+  | "eap5gnas" => pure (fin (IKEPayloadContainer.BuildEAP5GNAS c (← u8At ts a) (← bytesAt ts (a+1))))
+  | "qos" => pure (fin (IKEPayloadContainer.BuildNotify5G_QOS_INFO c (← u8At ts a) (← bytesAt ts (a+1)) (← boolAt ts (a+2)) (← boolAt ts (a+3)) (← u8At ts (a+4))))
+  | "tcpport" => pure (fin (IKEPayloadContainer.BuildNotifyNAS_TCP_PORT c (← u16At ts a)))
+  | "reset" => pure (fin (IKEPayloadContainer.Reset c))
+  | _ => pure "unsupported"   -- nasip / upip: net.ParseIP, not translated
+
 def gHandle (line : String) : String :=
   let ts := Sx.tokens line
   if h : 0 < ts.size then
@@ -473,6 +520,7 @@ def gHandle (line : String) : String :=
     else if op == "childkeys2" then gChildKeys2Op ts
     else if op == "saops" then gSaOpsOp ts
     else if op == "genrandom" then gGenRandomOp ts
+    else if op == "build" then (gBuildOp ts).getD "bad-args"
     else if op == "reenc" then
       if h3 : ts.size = 3 then
         match parseX ts[2] with
